@@ -1381,6 +1381,10 @@ class Engine:
                 sh = b // 8
                 return Bundle([(ro - sh, sz, x) for ro, sz, x in a.parts if ro >= sh], a.size)
             raise Inconclusive('INT mode: arithmetic on a bundled wide load')
+        if op in ('shl', 'lshr', 'ashr') and isinstance(b, int) and b >= bits and A.name == 'BITS':
+            # LLVM: a shift by the width or more is poison. Modelled as an arbitrary value, so that whatever depends on it is found
+            # (an index built from it leaves the storage for some value; x86 would compute x << (b mod width))
+            return s.undef_of(st, t)
         return A.binop(st, op, a, b, bits)
 
     def ptr_arith(s, st, op, a, b, bits):
